@@ -210,22 +210,34 @@ def check(ctx: Ctx) -> None:
     fields = [p for p in f_init.params() if p != "self"]
 
     with ctx.obligation("C08.a", "header-agreement") as ob:
-        packs = [c for c in repo.calls_in(f_to) if unparse(c.func) == "struct.pack"]
-        unpacks = [c for c in repo.calls_in(f_from) if unparse(c.func) == "struct.unpack"]
-        ob.require(len(packs) == 1 and len(unpacks) == 1, "pack/unpack of the frame header not found")
-        fp, fu = repo.fold_in(packs[0].args[0], f_to), repo.fold_in(unpacks[0].args[0], f_from)
+        def struct_calls(fi_, which):
+            out = []
+            for c in repo.calls_in(fi_):
+                if unparse(c.func) == f"struct.{which}" and c.args:
+                    out.append((c, repo.fold_in(c.args[0], fi_), list(c.args[1:])))
+                else:
+                    sb = repo.struct_binding(c.func, fi_)
+                    if sb is not None and sb[1] == which:
+                        out.append((c, sb[0], list(c.args)))
+            return out
+        pk, upk = struct_calls(f_to, "pack"), struct_calls(f_from, "unpack")
+        ob.require(len(pk) == 1 and len(upk) == 1, "pack/unpack of the frame header not found")
+        packs, unpacks = [pk[0][0]], [upk[0][0]]
+        fp, fu = pk[0][1], upk[0][1]
+        pack_args = pk[0][2]
         ob.site(f_to, packs[0], "header format", writer=fp, reader=fu, reference=ref.HEADER_FORMAT)
         if fp != fu:
             ob.violation(f_from, unpacks[0], f"header format differs: writer {fp!r}, reader {fu!r}")
         if fp != ref.HEADER_FORMAT:
             ob.violation(f_to, packs[0], f"header format {fp!r} is not the wire format {ref.HEADER_FORMAT!r} (type 1, channel 4, payload length 4, big-endian)")
         want = [f"self.{fields[0]}", f"self.{fields[1]}", f"len(self.{fields[2]})"] if len(fields) == 3 else []
-        have = [unparse(a) for a in packs[0].args[1:]]
+        have = [unparse(a) for a in pack_args]
         if have != want:
             ob.violation(f_to, packs[0], f"header fields packed as {have}, expected {want}")
         reads = [c for c in repo.calls_in(f_from) if callee_attr(c) == "read"]
         ob.require(len(reads) == 2, "from_io: two reads (header, payload) expected")
-        hsize = repo.fold_in(reads[0].args[0], f_from)
+        from ..util import expand as _exp
+        hsize = repo.fold_in(_exp(repo, f_from, reads[0].args[0]), f_from)
         ob.site(f_from, reads[0], "header read size == calcsize(format)", size=hsize)
         if isinstance(fu, str) and hsize != struct.calcsize(fu):
             ob.violation(f_from, reads[0], f"header read of {hsize} bytes != calcsize({fu!r}) = {struct.calcsize(fu)}")
@@ -261,11 +273,12 @@ def check(ctx: Ctx) -> None:
             if len(ws) != 1:
                 ob.violation(f_to, f_to.node, f"a frame is written with {len(ws)} write calls: concurrent senders could interleave header and payload", construct=f"{len(ws)} writes")
                 continue
-            a = unparse(ws[0].args[0]) if ws[0].args else ""
-            names = {x.id for x in ast.walk(ws[0]) if isinstance(x, ast.Name)} | {unparse(x) for x in ast.walk(ws[0]) if isinstance(x, ast.Attribute)}
-            hdr = [unparse(repo.parent(c).targets[0]) for c in repo.calls_in(f_to) if unparse(c.func) == "struct.pack" and isinstance(repo.parent(c), ast.Assign)]
-            if not (hdr and hdr[0] in names and f"self.{fields[2]}" in names and a.replace(" ", "") == f"{hdr[0]}+self.{fields[2]}"):
-                ob.violation(f_to, ws[0], f"the single write does not carry header followed by payload (`{a}`)")
+            from ..util import expand
+            a = expand(repo, f_to, ws[0].args[0]) if ws[0].args else None
+            ok = isinstance(a, ast.BinOp) and isinstance(a.op, ast.Add) and isinstance(a.left, ast.Call) and (
+                unparse(a.left.func) == "struct.pack" or (repo.struct_binding(a.left.func, f_to) or ("", ""))[1] == "pack") and unparse(a.right) == f"self.{fields[2]}"
+            if not ok:
+                ob.violation(f_to, ws[0], f"the single write does not carry header followed by payload (`{norm(a) if a is not None else ''}`)")
         ob.require(n >= 1, "no path through to_io")
 
     with ctx.obligation("C08.c", "exact-read") as ob:
